@@ -106,6 +106,24 @@ func runCrash(prop string) *ShardResult {
 			}
 			return ops
 		}
+	case "C08":
+		cc.Depth = 1
+		cc.WorkLen = func(l int) int { return []int{0, 3, 1, 1}[l] }
+		cc.Alpha = func(l int, m *core.Model) []core.Op {
+			ops := []core.Op{{K: "S", Key: "k1", Val: []byte("a")}, {K: "S", Key: "k1", Nil: true}, {K: "U", Key: "k2", U64: 7}}
+			ops = append(ops, appendOps(m, [][]int{{4, 4}})...)
+			return append(ops, delOps(m, true, true)...)
+		}
+	case "C13":
+		cc.Depth = 2
+		cc.WorkLen = func(l int) int { return []int{0, 3, 1, 1}[l] }
+		cc.Alpha = func(l int, m *core.Model) []core.Op {
+			if l == 1 {
+				ops := appendOps(m, [][]int{{4}, {4, 4, 4}})
+				return append(ops, delOps(m, true, true)...)
+			}
+			return append(appendOps(m, small), delOps(m, true, true)...)
+		}
 	case "C04":
 		cc.Depth = 2
 		cc.WorkLen = func(l int) int { return []int{0, 3, 2, 1}[l] }
